@@ -621,12 +621,45 @@ fn snapshot_layouts(rep: &mut Report) {
     rep.acc.merge(acc);
 }
 
+pub fn c08_overflow_child(tier: &str) -> ! {
+    crate::dom::quiet_panics();
+    let mut rep = Report::new("C08", tier);
+    reservation_overflow_cases(&mut rep);
+    let viols: Vec<Value> = rep.acc.violations.iter().map(|(sig, c)| json!({"sig": sig, "what": c.what, "count": c.count, "examples": c.examples})).collect();
+    println!("{}", json!({"cases": rep.acc.evaluations, "transitions": rep.acc.transitions, "violations": viols}));
+    std::process::exit(0)
+}
+
 pub fn c08_seq_child(tier: &str) -> ! {
     crate::dom::quiet_panics();
     let mut rep = Report::new("C08", tier);
     run_seq(&mut rep);
     snapshot_layouts(&mut rep);
-    reservation_overflow_cases(&mut rep);
+    // reservations beyond the index space run in a process of their own: a change that makes the
+    // library allocate for the claimed length dies of an allocation failure, which cannot be caught
+    let exe = std::env::current_exe().unwrap_or_else(|_| common::machinery_failure("current_exe"));
+    match std::process::Command::new(&exe).args(["c08-overflow", tier]).output() {
+        Ok(out) if out.status.success() => {
+            let stdout = String::from_utf8_lossy(&out.stdout).to_string();
+            let v: Value = serde_json::from_str(stdout.lines().last().unwrap_or("")).unwrap_or(Value::Null);
+            rep.acc.evaluations += v["cases"].as_u64().unwrap_or(0);
+            rep.acc.states += v["cases"].as_u64().unwrap_or(0);
+            rep.acc.transitions += v["transitions"].as_u64().unwrap_or(0);
+            rep.acc.nontrivial += v["cases"].as_u64().unwrap_or(0);
+            for vl in v["violations"].as_array().cloned().unwrap_or_default() {
+                let sig = vl["sig"].as_str().unwrap_or("C08/seq/count").to_owned();
+                let what = vl["what"].as_str().unwrap_or("").to_owned();
+                for ex in vl["examples"].as_array().cloned().unwrap_or_default() {
+                    rep.acc.violation(&sig, &what, || ex);
+                }
+            }
+        }
+        Ok(out) => {
+            let err: String = String::from_utf8_lossy(&out.stderr).lines().filter(|l| !l.trim_start().starts_with(|c: char| c.is_ascii_digit()) && !l.trim_start().starts_with("at ")).take(3).collect::<Vec<_>>().join(" | ");
+            rep.acc.violation("C08/seq/count", "the process died while reservations beyond the index space were made (allocation failure or crash)", || json!({"status": format!("{:?}", out.status), "stderr": err.chars().take(300).collect::<String>(), "family": "reservation overflow"}));
+        }
+        Err(e) => common::machinery_failure(&format!("cannot run the overflow child: {e}")),
+    }
     let mut viols = Vec::new();
     for (sig, class) in rep.acc.violations.iter() {
         let cl = sig.rsplit('/').next().unwrap_or("");
